@@ -287,12 +287,6 @@ Proof.
   destruct Hhd; constructor. apply HR. assumption.
 Qed.
 
-Definition block_time (st : stats) (b : block) : Z :=
-  match find (fun e => key_eqb (fst e) (b_key b)) st with
-  | Some e => total_time (snd e)
-  | None => 0
-  end.
-
 (* sort=True: the shown entries are in ascending total time, ties in dict order *)
 Theorem sort_by_time F E o st :
   o_details o = true -> o_sort o = true ->
@@ -327,23 +321,23 @@ Proof.
 Qed.
 
 (* ---- summary ---------------------------------------------------------------------------- *)
-Definition summarized (F : formatter) (strip : bool) (e : entry) : bool :=
-  negb strip || f_truthy F (total_time (snd e)).
+Lemma shown_alt strip e : shown strip e = negb strip || negb (total_hits (snd e) =? 0).
+Proof. unfold shown. destruct strip, (total_hits (snd e) =? 0); reflexivity. Qed.
 
 Lemma summary_keys F E o st :
   o_summarize o = true ->
   rp_summary (show_text F E o st)
   = map (fun e => (fst e, f_summary F (total_time (snd e))))
-        (filter (summarized F (o_stripzeros o)) (stats_order (o_sort o) st)).
+        (filter (shown (o_stripzeros o)) (stats_order (o_sort o) st)).
 Proof.
   intros Hs. unfold show_text. cbn [rp_summary]. rewrite Hs.
   induction (stats_order (o_sort o) st) as [|e t IH]; cbn [filter_map filter map]; [reflexivity|].
-  unfold summary_of at 1, summarized at 1.
-  destruct (negb (o_stripzeros o) || f_truthy F (total_time (snd e))); cbn [map]; rewrite IH; reflexivity.
+  unfold summary_of at 1. rewrite (shown_alt (o_stripzeros o) e).
+  destruct (negb (o_stripzeros o) || negb (total_hits (snd e) =? 0)); cbn [map]; rewrite IH; reflexivity.
 Qed.
 
-(* summarize adds one total per function (all of them without stripzeros), in block order,
-   and nothing when off *)
+(* summarize adds one total per function to be shown (all of them without stripzeros; with it
+   those with total hits <> 0), in block order, and nothing when off *)
 Theorem summarize_one_per_function F E o (st : stats) :
   NoDup (map fst st) ->
   (o_summarize o = false -> rp_summary (show_text F E o st) = [])
@@ -351,7 +345,7 @@ Theorem summarize_one_per_function F E o (st : stats) :
       NoDup (map fst (rp_summary (show_text F E o st)))
       /\ (forall k tm, In (k, tm) st ->
             (In (k, f_summary F (total_time tm)) (rp_summary (show_text F E o st))
-             <-> (o_stripzeros o = false \/ f_truthy F (total_time tm) = true)))
+             <-> (o_stripzeros o = false \/ total_hits tm <> 0)))
       /\ (o_stripzeros o = false ->
             map fst (rp_summary (show_text F E o st)) = map fst (stats_order (o_sort o) st))).
 Proof.
@@ -368,14 +362,25 @@ Proof.
         inversion Heq; subst k'.
         assert (tm' = tm).
         { eapply NoDup_keys_in_unique; [exact Hnd| |exact Hin]. eapply Permutation_in; [exact Hperm|exact Hf]. }
-        subst tm'. unfold summarized in Hsum. cbn [snd] in Hsum.
-        destruct (o_stripzeros o); [right; exact Hsum|left; reflexivity].
+        subst tm'. unfold shown in Hsum. cbn [snd] in Hsum.
+        destruct (o_stripzeros o); [right|left; reflexivity]. cbn in Hsum. lia.
       * intros Hc. exists (k, tm). split; [reflexivity|]. apply filter_In. split.
         -- eapply Permutation_in; [apply Permutation_sym, Hperm|exact Hin].
-        -- unfold summarized. cbn [snd]. destruct Hc as [-> | ->]; [reflexivity|apply orb_true_r].
+        -- unfold shown. cbn [snd]. destruct Hc as [-> | Hc]; [reflexivity|].
+           destruct (o_stripzeros o); [cbn; lia|reflexivity].
     + intros Hz. rewrite map_map. cbn [fst]. f_equal.
       clear -Hz. induction (stats_order (o_sort o) st) as [|e t IH]; cbn [filter]; [reflexivity|].
-      unfold summarized at 1. rewrite Hz at 1. cbn [negb orb]. f_equal. exact IH.
+      unfold shown at 1. rewrite Hz at 1. cbn [negb andb]. f_equal. exact IH.
+Qed.
+
+(* the summary lists exactly the functions whose details are shown, in the same order - under
+   every option combination, stripzeros included *)
+Theorem summary_matches_details F E o (st : stats) :
+  o_details o = true -> o_summarize o = true ->
+  map fst (rp_summary (show_text F E o st)) = map b_key (rp_blocks (show_text F E o st)).
+Proof.
+  intros Hd Hs. rewrite blocks_keys by exact Hd. rewrite summary_keys by exact Hs.
+  rewrite map_map. reflexivity.
 Qed.
 
 (* ---- rows of one block ---------------------------------------------------------------- *)
@@ -609,22 +614,6 @@ Proof.
   rewrite (Hiff k tm Hin), Hs. rewrite <- (no_hits_iff tm Hnn). split.
   - intros H. destruct (Z.eq_dec (total_hits tm) 0) as [E0|Ne]; [exact E0|]. exfalso. apply H. right. exact Ne.
   - intros H [Hc|Hc]; [discriminate|contradiction].
-Qed.
-
-(* ---- summary vs details under stripzeros ------------------------------------------------------ *)
-(* If "total time is non-zero" coincided with "total hits is non-zero" the two filters would
-   agree; show_text tests the TIME for the summary and the HITS for the details. *)
-Theorem skipzero_summary_agree_if F E o (st : stats) :
-  o_details o = true -> o_summarize o = true ->
-  (forall k tm, In (k, tm) st -> f_truthy F (total_time tm) = negb (total_hits tm =? 0)) ->
-  map fst (rp_summary (show_text F E o st)) = map b_key (rp_blocks (show_text F E o st)).
-Proof.
-  intros Hd Hs Hag. rewrite blocks_keys by exact Hd. rewrite summary_keys by exact Hs.
-  rewrite map_map. cbn [fst]. f_equal. apply filter_ext_in.
-  intros [k tm] Hin. apply (Permutation_in _ (stats_order_perm (o_sort o) st)) in Hin.
-  unfold summarized, shown. cbn [snd]. rewrite (Hag k tm Hin).
-  destruct (o_stripzeros o); cbn [negb orb andb]; [|reflexivity].
-  reflexivity.
 Qed.
 
 (* ---- IPython cells: the source block is gone once linecache was cleared ---------------------- *)
